@@ -8,6 +8,57 @@
 
 package ast
 
-//@ typeinv ast.BackendDeclaration self.Meta != nil && self.Name != nil
-//@ typeinv ast.AclDeclaration self.Meta != nil && self.Name != nil
 //@ typeinv ast.AclCidr self.Meta != nil && self.IP != nil
+//@ typeinv ast.AclDeclaration self.Meta != nil && self.Name != nil
+//@ typeinv ast.AddStatement self.Meta != nil && self.Ident != nil && self.Operator != nil && self.Value != nil
+//@ typeinv ast.BackendDeclaration self.Meta != nil && self.Name != nil
+//@ typeinv ast.BackendProbeObject self.Meta != nil
+//@ typeinv ast.BackendProperty self.Meta != nil && self.Key != nil && self.Value != nil
+//@ typeinv ast.BlockStatement self.Meta != nil
+//@ typeinv ast.Boolean self.Meta != nil
+//@ typeinv ast.BreakStatement self.Meta != nil
+//@ typeinv ast.CallStatement self.Meta != nil && self.Subroutine != nil
+//@ typeinv ast.CaseStatement self.Meta != nil
+//@ typeinv ast.DeclareStatement self.Meta != nil && self.Name != nil && self.ValueType != nil
+//@ typeinv ast.DirectorBackendObject self.Meta != nil
+//@ typeinv ast.DirectorDeclaration self.Meta != nil && self.Name != nil && self.DirectorType != nil
+//@ typeinv ast.DirectorProperty self.Meta != nil && self.Key != nil && self.Value != nil
+//@ typeinv ast.ElseStatement self.Meta != nil
+//@ typeinv ast.ErrorStatement self.Meta != nil
+//@ typeinv ast.EsiStatement self.Meta != nil
+//@ typeinv ast.FallthroughStatement self.Meta != nil
+//@ typeinv ast.Float self.Meta != nil
+//@ typeinv ast.FunctionCallExpression self.Meta != nil && self.Function != nil
+//@ typeinv ast.FunctionCallStatement self.Meta != nil && self.Function != nil
+//@ typeinv ast.GotoDestinationStatement self.Meta != nil && self.Name != nil
+//@ typeinv ast.GotoStatement self.Meta != nil && self.Destination != nil
+//@ typeinv ast.GroupedExpression self.Meta != nil && self.Right != nil
+//@ typeinv ast.IP self.Meta != nil
+//@ typeinv ast.Ident self.Meta != nil
+//@ typeinv ast.IfExpression self.Meta != nil && self.Condition != nil && self.Consequence != nil && self.Alternative != nil
+//@ typeinv ast.IfStatement self.Meta != nil && self.Condition != nil && self.Consequence != nil
+//@ typeinv ast.ImportStatement self.Meta != nil && self.Name != nil
+//@ typeinv ast.IncludeStatement self.Meta != nil && self.Module != nil
+//@ typeinv ast.InfixExpression self.Meta != nil && self.Right != nil
+//@ typeinv ast.Integer self.Meta != nil
+//@ typeinv ast.LogStatement self.Meta != nil && self.Value != nil
+//@ typeinv ast.Operator self.Meta != nil
+//@ typeinv ast.PenaltyboxDeclaration self.Meta != nil && self.Name != nil && self.Block != nil
+//@ typeinv ast.PostfixExpression self.Meta != nil && self.Left != nil
+//@ typeinv ast.PrefixExpression self.Meta != nil && self.Right != nil
+//@ typeinv ast.RTime self.Meta != nil
+//@ typeinv ast.RatecounterDeclaration self.Meta != nil && self.Name != nil && self.Block != nil
+//@ typeinv ast.RemoveStatement self.Meta != nil && self.Ident != nil
+//@ typeinv ast.RestartStatement self.Meta != nil
+//@ typeinv ast.ReturnStatement self.Meta != nil
+//@ typeinv ast.SetStatement self.Meta != nil && self.Ident != nil && self.Operator != nil && self.Value != nil
+//@ typeinv ast.String self.Meta != nil
+//@ typeinv ast.SubroutineDeclaration self.Meta != nil && self.Name != nil && self.Block != nil
+//@ typeinv ast.SubroutineParameter self.Meta != nil && self.Type != nil && self.Name != nil
+//@ typeinv ast.SwitchControl self.Meta != nil && self.Expression != nil
+//@ typeinv ast.SwitchStatement self.Meta != nil && self.Control != nil
+//@ typeinv ast.SyntheticBase64Statement self.Meta != nil && self.Value != nil
+//@ typeinv ast.SyntheticStatement self.Meta != nil && self.Value != nil
+//@ typeinv ast.TableDeclaration self.Meta != nil && self.Name != nil && self.ValueType != nil
+//@ typeinv ast.TableProperty self.Meta != nil && self.Key != nil && self.Value != nil
+//@ typeinv ast.UnsetStatement self.Meta != nil && self.Ident != nil
